@@ -77,6 +77,7 @@ func newCheckRedirect(client *HTTPClient) func(req *http.Request, via []*http.Re
 				secondaries = append(secondaries, fmt.Sprintf("%s://%s", shards.URIScheme, shard.HTTPAddr))
 			}
 		}
+		secondaries = simOrder(secondaries)
 		client.topology.Update(primary, secondaries...)
 		req.Host = req.URL.Host
 		return nil
@@ -471,6 +472,7 @@ func (c *HTTPClient) discover() error {
 					secondaries = append(secondaries, fmt.Sprintf("%s://%s", shards.URIScheme, shard.HTTPAddr))
 				}
 			}
+			secondaries = simOrder(secondaries)
 			c.topology.Update(primary, secondaries...)
 			break
 		}
